@@ -734,6 +734,16 @@ pub fn c15_scenarios(thorough: bool) -> Vec<C15Scn> {
                         threads: vec![vec![mop("cb", "entry")], vec![mop("cb", b)]], callback: "".into(),
                         setup: vec![mop("cb", "entryerr"), mop("clock", "1001"), mop("flow", "loadzero")] });
     }
+    // every pair of mutating operations of a family on their own (two threads: the preemption bound then covers
+    // every point of both within the run budget, e.g. the gap between two separately locked steps of one call)
+    for fam in ["flow", "iso", "hot", "cb", "sys"] {
+        let mo: &[&str] = if fam == "sys" { &["loadA", "loadB", "append", "clear"] } else { &["loadA", "loadB", "loadres", "loadres0", "append", "clear", "clearres"] };
+        for (i, a) in mo.iter().enumerate() {
+            for b in mo.iter().skip(i) {
+                v.push(C15Scn { name: format!("{}:{}+{}", fam, a, b), threads: vec![vec![mop(fam, a)], vec![mop(fam, b)]], callback: "".into(), setup: vec![] });
+            }
+        }
+    }
     if thorough {
         for fam in ["flow", "iso", "hot", "cb"] {
             for a in ["loadB", "loadres", "append", "clear"] {
